@@ -530,7 +530,6 @@ Varable failures: {var_failed}
 
         # Update TFLAG, SDATE, STIME and TSTEP
         if 'TSTEP' in kwds:
-            import datetime
             times = np.atleast_1d(self.getTimes()[kwds['TSTEP']])
             outf.SDATE = int(times[0].strftime('%Y%j'))
             outf.STIME = int(times[0].strftime('%H%M%S'))
@@ -538,9 +537,12 @@ Varable failures: {var_failed}
                 dt = np.diff(times)
                 if not (dt[0] == dt).all():
                     warn('New time is unstructured')
-                outf.TSTEP = int(
-                    (datetime.datetime(1900, 1, 1, 0) +
-                     dt[0]).strftime('%H%M%S'))
+                # HHMMSS where HH may exceed 23 (e.g., daily or longer steps)
+                dtsec = int(round(dt[0].total_seconds()))
+                outf.TSTEP = (
+                    (dtsec // 3600) * 10000 + (dtsec % 3600 // 60) * 100
+                    + dtsec % 60
+                )
 
         outf.updatemeta()
         return outf
